@@ -14,49 +14,129 @@ open Numqi Function Matrix
 
 variable {α : Type} [Zero α] [One α] [Add α] [Sub α] [Mul α] [Neg α]
 
-/-! ### what each statement does to `gate_index_list` -/
+/-! ### what each statement does to `gate_index_list`
+
+`runProg_snoc` is the unfolding of the fold; the four statements below it are its readings for the four kinds of statement
+(definitional: they document the model, the content is in `circuit_shift`, `compile_shift_*`, `refused_not_compiled`). -/
 
 theorem runProg_snoc (I : α) (p : List (Stmt α)) (s : Stmt α) :
     runProg I (p ++ [s]) = Stmt.step I (runProg I p) s := by
   simp [runProg, List.foldl_append]
 
-/-- **`append_gate` / any single-entry method appends exactly one entry and touches nothing else** -/
+/-- **`append_gate` / any single-entry method appends exactly one entry and touches nothing else** (definitional) -/
 theorem runProg_append_gate (I : α) (p : List (Stmt α)) (g : RawOp α) :
-    runProg I (p ++ [.base (.gate g)]) = (runProg I p).map (· ++ [g]) := by
+    runProg I (p ++ [.base (.gate g)]) = runProg I p ++ [g.canon] := by
   rw [runProg_snoc]; rfl
 
-/-- a named gate method appends the entry of the vocabulary table -/
+/-- a named gate method appends the entry of the vocabulary table (definitional) -/
 theorem runProg_call (I : α) (p : List (Stmt α)) (v : Vocab α) :
-    runProg I (p ++ [.base (.call v)]) = (runProg I p).map (· ++ [v.toRaw I]) := by
+    runProg I (p ++ [.base (.call v)]) = runProg I p ++ [(v.toRaw I).canon] := by
   rw [runProg_snoc]; rfl
 
-/-- **`shift_qubit_index_(δ)` translates the indices of every entry present so far** (later appends are not affected) -/
+/-- **`shift_qubit_index_(δ)` translates the indices of every entry present so far** (later appends are not affected;
+definitional) -/
 theorem runProg_shift (I : α) (p : List (Stmt α)) (δ : Int) :
-    runProg I (p ++ [.base (.shift δ)]) = (runProg I p).map (List.map (RawOp.shift δ)) := by
+    runProg I (p ++ [.base (.shift δ)]) = (runProg I p).map (RawOp.shift δ) := by
   rw [runProg_snoc]; rfl
 
-/-- **`extend_circuit(sub)` appends the entries of the other circuit, in order** -/
+/-- **`extend_circuit(sub)` appends the entries of the other circuit, in order** (definitional) -/
 theorem runProg_extend (I : α) (p : List (Stmt α)) (sub : List (Stmt0 α)) :
-    runProg I (p ++ [.extend sub]) = (do let a ← runProg I p; let b ← runProg0 I sub; pure (a ++ b)) := by
+    runProg I (p ++ [.extend sub]) = runProg I p ++ runProg0 I sub := by
   rw [runProg_snoc]; rfl
 
-/-- an entry `apply_state` refuses poisons the circuit for good: no later statement makes it applicable again -/
-theorem runProg_unsupported (I : α) (p q : List (Stmt α)) :
-    runProg I (p ++ [.base .unsupported] ++ q) = none := by
-  have h0 : ∀ q : List (Stmt α), q.foldl (Stmt.step I) none = none := by
+/-! ### an entry `apply_state` refuses -/
+
+/-- the entry has no array -/
+def RawOp.noArray : RawOp α → Bool
+  | .unitary U _ => U.size == 0
+  | .control U _ _ => U.size == 0
+  | .custom U => U.size == 0
+  | .measure _ _ => false
+
+omit [One α] [Add α] [Sub α] [Mul α] [Neg α] in
+/-- an entry without array is rejected at every width -/
+theorem compile_noArray (n : Nat) (g : RawOp α) (h : RawOp.noArray g = true) : g.compile n = none := by
+  have hp : ∀ k : Nat, ((0 : Nat) == 2 ^ k * 2 ^ k) = false := by
+    intro k
+    have : 0 < 2 ^ k * 2 ^ k := Nat.mul_pos (Nat.two_pow_pos k) (Nat.two_pow_pos k)
+    simp only [beq_eq_false_iff_ne, ne_eq]; omega
+  cases n with
+  | zero => cases g <;> rfl
+  | succ n =>
+    cases g with
+    | unitary U t =>
+      have hU : U.size = 0 := by simpa [RawOp.noArray] using h
+      simp [RawOp.compile, hU, hp]
+    | control U c t =>
+      have hU : U.size = 0 := by simpa [RawOp.noArray] using h
+      simp only [RawOp.compile, hU, hp, Bool.and_false]
+      split <;> simp
+    | measure s o => simp [RawOp.noArray] at h
+    | custom U =>
+      have hU : U.size = 0 := by simpa [RawOp.noArray] using h
+      simp [RawOp.compile, hU, hp]
+
+omit [Zero α] [One α] [Add α] [Sub α] [Mul α] [Neg α] in
+theorem noArray_shift (δ : Int) (g : RawOp α) : RawOp.noArray (g.shift δ) = RawOp.noArray g := by
+  cases g <;> rfl
+
+omit [Zero α] [One α] [Add α] [Sub α] [Mul α] [Neg α] in
+theorem noArray_refused (r : Refused) : RawOp.noArray (r.toRaw : RawOp α) = true := by
+  cases r <;> rfl
+
+omit [One α] [Add α] [Sub α] [Mul α] [Neg α] in
+/-- a list holding an entry without array is not a circuit at any width -/
+theorem compileCircuit_noArray (n : Nat) (l : List (RawOp α)) (h : ∃ g ∈ l, RawOp.noArray g = true) : compileCircuit n l = none := by
+  obtain ⟨g, hg, hn⟩ := h
+  induction l with
+  | nil => simp at hg
+  | cons a l ih =>
+    unfold compileCircuit
+    rw [List.mapM_cons]
+    rcases List.mem_cons.1 hg with rfl | hmem
+    · rw [compile_noArray n g hn]; rfl
+    · have := ih hmem
+      unfold compileCircuit at this
+      rw [this]
+      cases RawOp.compile n a <;> rfl
+
+theorem step0_keeps_noArray (I : α) (l : List (RawOp α)) (s : Stmt0 α) (h : ∃ g ∈ l, RawOp.noArray g = true) :
+    ∃ g ∈ Stmt0.step I l s, RawOp.noArray g = true := by
+  obtain ⟨g, hg, hn⟩ := h
+  cases s with
+  | gate g' => exact ⟨g, List.mem_append_left _ hg, hn⟩
+  | call v => exact ⟨g, List.mem_append_left _ hg, hn⟩
+  | shift δ => exact ⟨g.shift δ, List.mem_map_of_mem hg, by rw [noArray_shift]; exact hn⟩
+  | refused r => exact ⟨g, List.mem_append_left _ hg, hn⟩
+
+theorem step_keeps_noArray (I : α) (l : List (RawOp α)) (s : Stmt α) (h : ∃ g ∈ l, RawOp.noArray g = true) :
+    ∃ g ∈ Stmt.step I l s, RawOp.noArray g = true := by
+  cases s with
+  | base s0 => exact step0_keeps_noArray I l s0 h
+  | extend sub => obtain ⟨g, hg, hn⟩ := h; exact ⟨g, List.mem_append_left _ hg, hn⟩
+
+/-- **an entry `apply_state` refuses (never-set placeholder, Kraus entry) makes the circuit inapplicable for good**: whatever
+statements follow (appends, shifts, extensions), the entry list compiles at no width — `Circuit.apply_state` / `to_unitary`
+raise.  The entry itself stays in the list with its real index (`Refused.toRaw`), so `num_qubit` and
+`shift_qubit_index_` still account for it. -/
+theorem refused_not_compiled (I : α) (p q : List (Stmt α)) (r : Refused) (n : Nat) :
+    compileCircuit n (runProg I (p ++ [.base (.refused r)] ++ q)) = none := by
+  apply compileCircuit_noArray
+  have h0 : ∀ (q : List (Stmt α)) (l : List (RawOp α)), (∃ g ∈ l, RawOp.noArray g = true) →
+      ∃ g ∈ q.foldl (Stmt.step I) l, RawOp.noArray g = true := by
     intro q
     induction q with
-    | nil => rfl
-    | cons s q ih =>
-      rw [List.foldl_cons]
-      have : Stmt.step I none s = none := by
-        cases s with
-        | base s0 => cases s0 <;> rfl
-        | extend sub => rfl
-      rw [this, ih]
+    | nil => intro l h; exact h
+    | cons s q ih => intro l h; rw [List.foldl_cons]; exact ih _ (step_keeps_noArray I l s h)
   simp only [runProg, List.foldl_append, List.foldl_cons, List.foldl_nil]
-  have : Stmt.step I (List.foldl (Stmt.step I) (some []) p) (.base .unsupported) = none := rfl
-  rw [this, h0]
+  apply h0
+  exact ⟨r.toRaw, List.mem_append_right _ (List.mem_singleton.2 rfl), noArray_refused r⟩
+
+omit [Zero α] [One α] [Add α] [Sub α] [Mul α] [Neg α] in
+/-- `num_qubit` counts a never-set placeholder at its index and ignores a Kraus entry (`circuit.py:458-465`) -/
+theorem refused_maxIndex (t : List Int) :
+    RawOp.maxIndex (Refused.toRaw (α := α) (.placeholder t)) = t.foldl max 0 ∧
+    RawOp.maxIndex (Refused.toRaw (α := α) .nonCanonical) = 0 := ⟨rfl, rfl⟩
 
 /-! ### shifts compose; a negative shift undoes a positive one -/
 
@@ -271,10 +351,18 @@ end circuitShift
 
 /-! ### non-vacuity -/
 
-/-- the model runs a program: `X(0)`, `extend_circuit([cnot(0,1)])`, `shift_qubit_index_(1)` leaves entries reaching qubits 1 and 2;
-a refused entry poisons it -/
-example : (runProg (0 : Int) [.base (.call (.X 0)), .extend [.call (.cnot 0 1)], .base (.shift 1)]).map (List.map RawOp.maxIndex)
-    = some [1, 2] := by decide
-example : (runProg (0 : Int) [.base (.call (.X 0)), .base .unsupported, .base (.call (.X 1))]).isNone = true := by decide
+/-- the model runs a program: `X(0)`, `extend_circuit([cnot(0,1)])`, `shift_qubit_index_(1)` leaves entries reaching qubits 1 and 2 -/
+example : (runProg (0 : Int) [.base (.call (.X 0)), .extend [.call (.cnot 0 1)], .base (.shift 1)]).map RawOp.maxIndex = [1, 2] := by decide
+/-- `X(0); rx(2, P['never'])` has `num_qubit = 3` (the refused entry counts at its index), `X(0); dephasing(2, …)` has 1; a later shift moves
+the placeholder entry -/
+example : numQubit (runProg (0 : Int) [.base (.call (.X 0)), .base (.refused (.placeholder [2]))]) = 3 := by decide
+example : numQubit (runProg (0 : Int) [.base (.call (.X 0)), .base (.refused .nonCanonical)]) = 1 := by decide
+example : numQubit (runProg (0 : Int) [.base (.refused (.placeholder [1])), .base (.shift 2)]) = 4 := by decide
+
+/-- repeated control indices collapse: `crx((1,1), 2, θ)` is stored as `({1}, (2,))` -/
+example : (RawOp.control (#[] : Array Int) [1, 1] [2]).canon = .control #[] [1] [2] := by
+  show RawOp.control #[] ([1, 1] : List Int).eraseDups [2] = _
+  have : ([1, 1] : List Int).eraseDups = [1] := by decide
+  rw [this]
 
 end Numqi.C03
